@@ -595,7 +595,8 @@ func (Scenario) Run(c choice.Chooser, opt sim.Options) (res sim.Result) {
 		// 2. structure
 		after, perr := a.structure()
 		if perr != "" {
-			r := violate("HARNESS/structure", perr, nil)
+			// the graph before the save could be inspected, the reloaded one cannot
+			r := violate("reloaded-graph-unreadable", "inspecting the reloaded graph through its schema panics: "+perr, map[string]any{"saved": clip(string(saved))})
 			return &r
 		}
 		if before != after {
